@@ -221,6 +221,9 @@ impl Node {
             Node::Anchor(_) => f.anchors = true,
             Node::Group(c) | Node::Named(_, c) => {
                 f.groups += 1;
+                if f.neg_depth > 0 {
+                    f.neg_look_groups.push(f.groups);
+                }
                 c.walk(f, in_atomic, in_look, in_loop)
             }
             Node::NonCap(c) | Node::CaseI(c) => c.walk(f, in_atomic, in_look, in_loop),
@@ -241,15 +244,30 @@ impl Node {
                 f.atomic = true;
                 c.walk(f, true, in_look, in_loop)
             }
-            Node::Look { child, .. } => {
+            Node::Look { child, neg, ahead } => {
                 f.look = true;
-                child.walk(f, in_atomic, true, in_loop)
+                if *neg {
+                    f.neg_depth += 1;
+                }
+                if !*ahead {
+                    f.behind_depth += 1;
+                }
+                child.walk(f, in_atomic, true, in_loop);
+                if *neg {
+                    f.neg_depth -= 1;
+                }
+                if !*ahead {
+                    f.behind_depth -= 1;
+                }
             }
             Node::Backref(_) | Node::NamedBackref(_) => f.backref = true,
             Node::KeepOut => {
                 f.keepout = true;
                 if in_look {
                     f.keepout_in_look = true;
+                }
+                if f.behind_depth > 0 {
+                    f.keepout_in_lookbehind = true;
                 }
             }
             Node::ContinueG => f.continue_g = true,
@@ -437,6 +455,11 @@ pub struct Facts {
     pub cond_expr: bool,
     pub cond_in_atomic: bool,
     pub cond_in_loop: bool,
+    /// numbers of the groups that lie inside a negative look-around
+    pub neg_look_groups: Vec<usize>,
+    pub neg_depth: usize,
+    pub keepout_in_lookbehind: bool,
+    pub behind_depth: usize,
 }
 
 /// Which constructs the generator may use (swarm: varied per run by the callers).
